@@ -127,8 +127,8 @@ def run(c, facts, tier):
                     c.ob("C11.stored", site, "%s[%s] = index of the %s binder" % (fld, inst[:50], want_kind), oks, "stored value %s; binder emitted on this path: %s — a later identical request would otherwise be handed a different resource" % (val, bix), witness="-name *.c -name main.c -o -name *.c -print0" if not oks else None)
                 # C11.key
                 for fld, kv in p.inserts:
-                    key = kv[0]
-                    conds = p.cond
+                    key = p.norm(kv[0])
+                    conds = p.norm(p.cond)
                     looked = key in conds
                     c.ob("C11.key", site, "%s: lookup key = insertion key [%s]" % (fld, inst[:60]), looked, "inserted under %s; path condition tests %s" % (key, "the same key" if looked else conds[:120]), nontrivial=False)
             # key completeness: every parameter of the request occurs in the key
@@ -138,10 +138,10 @@ def run(c, facts, tier):
             for p in ps:
                 for fld, kv in p.inserts:
                     if fld in ("printers", "matches"):
-                        keys.add(kv[0])
+                        keys.add(p.norm(kv[0]))
             for key in keys:
                 # the key must be built from the parameters themselves (copies), not from a function of them that could merge requests
-                stripped = re.sub(r'"\{@\d+\}"|@\d+|self\.(files|default_port)\.[a-z_]+\([^()]*(\([^()]*\))?[^()]*\)\.unwrap\(\)|self\.default_port\.unwrap\(\)|OpenPort\{mutex:v(\+\d+)?,port:v(\+\d+)?\}|Target::(File|Stdout)|[(),]', "", key)
+                stripped = re.sub(r'files\["\{@\d+\}"\]|default_port|"\{@\d+\}"|@\d+|Target::(File|Stdout)|[(),]', "", key)
                 inj = stripped.strip() == ""
                 c.ob("C11.key", site, "sharing key is made of the request parameters themselves", inj, "key %s%s" % (key, "" if inj else " — contains a derived value (%s): two different requests may map to one key and share a resource" % stripped.strip()[:60]), witness="-name Makefile -o -name makefile" if not inj else None)
                 missing = [i for i in range(nparams) if "@%d" % i not in key]
